@@ -78,7 +78,7 @@ def _srcfn(name: str, params, doc_lines, body: str, g: dict):
     return ns[name]
 
 
-def specialise(prop: str, oid: str, fn, fixed: Dict[str, Sequence[Any]], **meta):
+def specialise(prop: str, oid: str, fn, fixed: Dict[str, Sequence[Any]], reach_if=None, **meta):
     """Register one obligation per combination of concrete values for the `fixed`
     parameters of `fn` (discrete structure is split over processes; every remaining
     parameter stays symbolic)."""
@@ -101,6 +101,8 @@ def specialise(prop: str, oid: str, fn, fixed: Dict[str, Sequence[Any]], **meta)
         f2 = _srcfn(f"{fn.__name__}__{suffix}".replace("-", "m"), params, docl, f"    return __vf_base({call})", g)
         f2.__module__ = fn.__module__
         m = dict(meta)
+        if reach_if is not None:
+            m["reach"] = bool(reach_if(fx))
         if "symbolic" in m:
             m["symbolic"] = m["symbolic"] + f" [fixed in this instance: {fx}]"
         ob(prop, f"{oid}[{suffix}]", **m)(f2)
